@@ -78,7 +78,9 @@ def scenario(r, it, idx):
     meta["t1"] = sim.time
     if meta["drain1"] and not sim.dead:
         pr = sim.probe("A")
-        if pr is not None and int(pr["fa"][0]) >= 0:
+        # credit for a data frame in the very next flush: non-negative AND nothing that is emitted before data frames (an owed sync
+        # reply, pending acknowledgement groups) is waiting to use it up
+        if pr is not None and int(pr["fa"][0]) >= 0 and pr["sr"][0] == "0" and pr["aq"][1] == "0":
             p = sim.send("A", 12, 0, 50)
             meta["ts_probe"] = p.idx
             sim.run(max(6, int(2 * lat2 // dt2) + 6), dt2, Net(latency=lat2), Net(latency=lat2))
